@@ -283,8 +283,10 @@ func run(c *Case) {
 
 // ---------------------------------------------------------------- generator (grammar driven)
 var keys = []string{"a", "b", "http.status", "x-y", "svc_1", "k"}
-var strs = []string{"v", "w", "", "it's", `a\b`, "%d", "x y", "GET", "200", `q"t`}
-var res = []string{"v.*", "^a", "[0-9]+", "a|b", ".+", "my_service", "100%", "a_b", "GET"}
+// the last three values of strs and the last two of res begin / end with a quote character: quote() writes them as a literal
+// WITHOUT a backslash whose content begins or ends with the OTHER quote character (round 8, seeded C11-h)
+var strs = []string{"v", "w", "", "it's", `a\b`, "%d", "x y", "GET", "200", `q"t`, `"ok"`, "`ls`", `"`}
+var res = []string{"v.*", "^a", "[0-9]+", "a|b", ".+", "my_service", "100%", "a_b", "GET", `"o."`, "`l.`"}
 var nums = []string{"0", "1", "5", "10", "200", "3.5", "0.25", "-1", "-2.5", "100000", "1.", "0.000001", "12345.678901", "0.0000001", "7.1234567"}
 var durs = []string{"1s", "5ms", "100us", "2m", "1h", "1.5s", "0.5ms", "10ns", "0s", "3d", "250ms", "1.25h"}
 var sops = []string{"=", "!=", "=~", "!~"}
@@ -296,6 +298,9 @@ func pick(r *rand.Rand, l []string) string { return l[r.Intn(len(l))] }
 func quote(r *rand.Rand, s string) string {
 	if r.Intn(5) == 0 && !strings.ContainsAny(s, "`\\") {
 		return "`" + s + "`"
+	}
+	if strings.Contains(s, "\"") && !strings.ContainsAny(s, "`\\") && r.Intn(2) == 0 {
+		return "`" + s + "`" // a double quote needs no escape between back-ticks: no backslash in the literal
 	}
 	return strconv.Quote(s) // ASCII, no control characters in the pools: a JSON string as well
 }
@@ -504,6 +509,10 @@ var confKinds = []confKind{
 		return []string{`"a\tb"`, `"a b"`, `"a\\tb"`, `"atb"`, `"a\u0009b"`}
 	}, false},
 	{"quotes", func(r *rand.Rand, g int) []string { return []string{`"q\"t"`, "`q\"t`", `"qt"`, `"q't"`} }, false},
+	{"other-quote-at-ends", func(r *rand.Rand, g int) []string { // the content begins / ends with the other quote character; no backslash
+		// in the first six (the JSON round trip of Unquote must give the content back byte for byte), the escaped spellings beside them
+		return []string{"`\"ok\"`", "\"`ls`\"", "`\"ok`", "`ok\"`", "\"`ls\"", "\"ls`\"", `"\"ok\""`, `"ok"`, "`ls`", "`\"\"ok\"\"`", "\"``\"", "`\"`"}
+	}, false},
 	{"quote-kinds-same-value", func(r *rand.Rand, g int) []string { return []string{`"w"`, "`w`", `"W"`} }, false},
 	{"percent-underscore", func(r *rand.Rand, g int) []string { return []string{dq("a_b"), dq("a%b"), dq("aXb"), dq("a-b")} }, false},
 	{"numbers-same-value", func(r *rand.Rand, g int) []string { return []string{"1", "1.0", "1.00", "01"} }, true},
